@@ -162,9 +162,47 @@ func (s *DialerSet) filterHit(dialer *dialer.Dialer, filters []*config_parser.Fu
 	return true, nil
 }
 
+// validateFilters rejects an invalid filter line or annotation independently of the node pool: filterHit
+// and NewAnnotation only look at the parts of a definition that some node happens to reach, so without
+// this pass an unknown input/key, a bad regexp or a bad annotation goes unreported until the pool changes.
+func validateFilters(filters [][]*config_parser.Function, annotations [][]*config_parser.Param) error {
+	for j, line := range filters {
+		for _, filter := range line {
+			switch filter.Name {
+			case FilterInput_Name, FilterInput_SubscriptionTag:
+			default:
+				return fmt.Errorf(`unsupported filter input type: "%v"`, filter.Name)
+			}
+			for _, param := range filter.Params {
+				switch {
+				case param.Key == "":
+				case param.Key == FilterKey_Name_Keyword && filter.Name == FilterInput_Name:
+				case param.Key == FilterKey_Name_Regex:
+					if _, ok := regexpCache.Load(param.Val); !ok {
+						regex, err := regexp2.Compile(param.Val, 0)
+						if err != nil {
+							return fmt.Errorf("bad regexp in filter %v: %w", filter.String(false, true, true), err)
+						}
+						regexpCache.Store(param.Val, regex)
+					}
+				default:
+					return fmt.Errorf(`unsupported filter key "%v" in "filter: %v()"`, param.Key, filter.Name)
+				}
+			}
+		}
+		if _, err := dialer.NewAnnotation(annotations[j]); err != nil {
+			return fmt.Errorf("apply filter annotation: %w", err)
+		}
+	}
+	return nil
+}
+
 func (s *DialerSet) FilterAndAnnotate(filters [][]*config_parser.Function, annotations [][]*config_parser.Param) (dialers []*dialer.Dialer, filterAnnotations []*dialer.Annotation, err error) {
 	if len(filters) != len(annotations) {
 		return nil, nil, fmt.Errorf("[CODE BUG]: unmatched annotations length: %v filters and %v annotations", len(filters), len(annotations))
+	}
+	if err = validateFilters(filters, annotations); err != nil {
+		return nil, nil, err
 	}
 	if len(filters) == 0 {
 		anno := make([]*dialer.Annotation, len(s.dialers))
